@@ -24,17 +24,9 @@ def AND(*args):
     return all(args)
 
 
-def single(value):
-    # a one-cell range ([[v]]) or one-item array ([v]) given where one value is expected is that value
-    for _ in range(2):
-        if isinstance(value, (list, tuple)) and len(value) == 1:
-            value = value[0]
-    return value
-
-
 @dispatcher.register_for('IF')
 def IF(test, then, otherwise=False):
-    test = single(test)
+    test = utils.single(test)
     if isinstance(test, error.XLError):
         return test
     return then if test else otherwise
@@ -52,7 +44,7 @@ def IFNA(value, value_if_na):
 
 @dispatcher.register_for('NOT')
 def NOT(boolean):
-    boolean = single(boolean)
+    boolean = utils.single(boolean)
     if isinstance(boolean, error.XLError):
         return boolean
     return not boolean
@@ -86,6 +78,7 @@ def switch_equal(target, case):
 
 @dispatcher.register_for('SWITCH')
 def SWITCH(target_value, *args):
+    target_value = utils.single(target_value)
     if isinstance(target_value, error.XLError):
         return target_value
     if len(args) <= 1:
@@ -103,11 +96,12 @@ def SWITCH(target_value, *args):
 
 @dispatcher.register_for('IFS')
 def IFS(*args):
-    for pair in zip(args[::2], args[1::2]):
-        if isinstance(pair[0], error.XLError):
-            return pair[0]
-        if pair[0]:
-            return pair[1]
+    for condition, value in zip(args[::2], args[1::2]):
+        condition = utils.single(condition)
+        if isinstance(condition, error.XLError):
+            return condition
+        if condition:
+            return value
     return error.NOT_AVAILABLE
 
 
